@@ -54,6 +54,18 @@ CLAIMED["C16"] = dict(
    note="Trusted: none beyond the engine; element handles are arbitrary references constrained only by the well-formedness of the list they claim to belong to.",
    technique="contract-based deductive verification with ghost sequences, ghost inverse index and quantified invariants")
 
+CLAIMED["C17"] = dict(
+   text="IsSorted and Heap against the ordering relation, with the comparison function as an uninterpreted pure total function (role dt/cmp.LessThan): List.IsSorted(lt) returns exactly 'no element is lt its predecessor' (true for lists shorter than two) - loop invariant over the element index, both directions of the equivalence proved, termination by a variant; Heap.lazySetup/Len/Push/Pop: the heap's list stays well-formed and sorted (no element LT its predecessor), Push inserts exactly one fresh element holding the pushed value at a position that keeps the list sorted and leaves every other element in place (view == insert(old view, k, new)), Pop removes and returns exactly the head, so successive pops are non-decreasing and return every pushed value exactly once; Push's scan terminates (variant). Not under contract (not proved): SortMerge / mergeSort / split / merge and SortQuick (sort.SliceStable) - permutation, sortedness, stability and 'the list remains usable' for the two sort entry points are NOT decided by this check.",
+   ref="DESIGN.md 7/C17",
+   note="Assumed: asymmetry of LT between the pushed value and the values in the heap (a consequence of 'strict weak ordering' in the statement) as a precondition of Heap.Push; comparison functions are pure (declared role). Trusted: the List kernel contracts of C16 (proved there).",
+   technique="contract-based deductive verification: loop invariants + variants over a ghost sequence view, comparison function as uninterpreted function")
+
+CLAIMED["C20"] = dict(
+   text="Non-destructive iterators, per call (step contracts) under arbitrary interference at every re-acquisition of the lock: Queue.Producer closure, waitForLink, waitForNew; Deque.confProducer closure (all four Producer* variants run it under the deque mutex) and element.wait. Proved: no nil dereference and no other panic on any path with the shared state havocked under the lock invariant at each Lock / cond.Wait return (entries and elements that were ever linked stay 'linked': links of linked nodes lead to linked nodes, never nil for the deque, never to the queue sentinel) - 'never panics'; a yielded value is the item of a linked, non-sentinel node - 'never yields a value that was not in the container'; the cursor moves to the node linked right after it (absent removals the link chain is container order: in order, nothing skipped, each once; reverse for the reverse variants), the non-blocking deque variants report io.EOF at the end without moving; the queue iterator parks only while its cursor has no successor and the queue is open, and every successful add notifies all parked iterators - 'does not remain blocked while an unseen item is present'; errors are ErrQueueClosed / context errors only when closed / done. Every Queue and Deque critical section is proved to preserve the linked-node invariants. Not decided: the WithLock wrapper around the deque producers (C15), Queue.Iterator / Deque.Iterator adapters (fun.Iterator, C02), 'finishes with io.EOF once closed' for the blocking deque variants (they return ErrQueueClosed).",
+   ref="DESIGN.md 7/C20",
+   note="Trusted: sync.Mutex/Cond/context models, ghost 'linked' marking via the guard ghost field set at linking time; int as mathematical integer.",
+   technique="contract-based deductive verification with lock invariants over all ever-linked nodes and interference havoc at every lock acquisition")
+
 NOT_APPLICABLE = {
  "C01": "exactly-once delivery across an unbounded set of goroutines and channels is a whole-execution property; no per-function contract within reach of the generator states it (DESIGN 7/C01)",
  "C04": "liveness (every goroutine eventually exits, a blocked consumer returns promptly): contracts give partial correctness only (DESIGN 7/C04)",
